@@ -399,8 +399,9 @@ func (bs *blockState) applyContractX(spec *FuncSpec, key string, args []Val, ins
 		for _, en := range spec.XEnsures {
 			xs.e.assume(xs.g, xc.boolT(en.Expr))
 		}
+		// the panic value is arbitrary and may be the nil interface: with a main module declaring go < 1.21
+		// (go-res itself declares go 1.18) panic(nil) is legal and recover() returns nil for it
 		pv := e.freshVal("pv."+short, types.NewInterfaceType(nil, nil))
-		e.assume(xg, not(eq(pv.C[0], "0")))
 		xs.raise(pv, "panic propagated from "+short, ins)
 		bs.g = bs.namedGuard(and(bs.g, not(p)))
 	}
